@@ -20,7 +20,7 @@
    dict_ok / opt_dict_ok (a dict has distinct keys). *)
 From Coq Require Import ZArith List Bool String.
 Require Import Rig.Generated.GenBoot Rig.Generated.GenBootImage Rig.Model.Base Rig.Model.Boot Rig.Spec.Boot.
-Require Import Rig.Proofs.BootStruct Rig.Proofs.Boot.
+Require Import Rig.Proofs.BootBytes Rig.Proofs.BootStruct Rig.Proofs.Boot.
 Import ListNotations.
 Open Scope Z_scope.
 
@@ -70,6 +70,12 @@ Theorem C20_boot_bytes :
             = nth j (le_bytes w (option_value c (f_name f) (f_default f))) 0)) /\
     (forall i, (i < 128)%nat -> (forall f, In f (s_fields (c_sv c)) -> ~ covers f i) -> nth (384 + i) r 0 = 0).
 Proof. exact boot_after_bytes. Qed.
+
+(* what "little-endian" means above: le_bytes is evaluated with bit operations, it is the byte-by-byte
+   base-256 expansion *)
+Theorem C20_le_bytes_meaning :
+  forall n v, le_bytes (S n) v = v mod 256 :: le_bytes n (v / 256).
+Proof. exact le_bytes_S. Qed.
 
 (* Clause 4.  The struct definitions returned are the file's with exactly this call's values as defaults (the
    values that were packed and sent, by C20_boot_reassembles), and the caller's dictionary is as it was. *)
